@@ -58,12 +58,28 @@ var failingActions = []struct{ class, src string }{
 	{"function-error", `silentv := includeIfExists("/inc/execfail.jet")`},
 	{"function-error", `if exec("/inc/execfail.jet") }}{{ end`},
 	// a value that renders itself in pieces and gives up after a piece that ends inside a character
+	// a function that panics with a nil pointer in an error value: a failure like any other
+	{"nil-error-panic", "nilerrpanicfn()"},
+	// a value whose String method fails, printed through a SafeWriter
+	{"function-error", "fpanicstr | raw"},
+	{"function-error", "fpanicstr | safeHtml"},
+	{"function-error", "unsafe: fpanicstr"},
 	{"renderer-failed", "frend"},
 	{"renderer-failed", "frend2"},
 }
 
 // StrPanicText is what strpanicfn panics with: a string, not an error
 const StrPanicText = "plain string panic from a user function: 100% <sure>, 50%d off, trailing %"
+
+// nilSafeErr: an error type whose methods tolerate a nil receiver
+type nilSafeErr struct{ msg string }
+
+func (e *nilSafeErr) Error() string {
+	if e == nil {
+		return "nil *nilSafeErr"
+	}
+	return e.msg
+}
 
 func failFuncs() map[string]jet.Func {
 	return map[string]jet.Func{
@@ -76,6 +92,10 @@ func failFuncs() map[string]jet.Func {
 			var m map[string]int
 			m["boom"] = 1
 			return reflect.Value{}
+		},
+		"nilerrpanicfn": func(a jet.Arguments) reflect.Value {
+			var e *nilSafeErr
+			panic(error(e))
 		},
 		// a user function that panics with something that is not an error value
 		"strpanicfn": func(a jet.Arguments) reflect.Value {
@@ -141,6 +161,7 @@ func failVars(p *mj.Program) {
 	p.Vars["fxs"] = mj.RInts(1, 2)
 	p.Vars["fnum"] = mj.RInt(5)
 	p.Vars["fnil"] = mj.RNil()
+	p.Vars["fpanicstr"] = mj.Recipe{T: "panic-stringer"}
 	p.Vars["frend"] = mj.Recipe{T: "rend-chunks", Ss: []string{"r<\xe6\x97"}, I: 1}
 	p.Vars["frend2"] = mj.Recipe{T: "rend-chunks", Ss: []string{"日本", "語\xf0\x9f\x98", "never"}, I: 2, B: true}
 }
@@ -478,7 +499,7 @@ func judgeC13(c c13Case) (v core.Verdict) {
 
 func TestC13(t *testing.T) {
 	core.Run(t, "C13",
-		"try statements whose body nests 0-4 of {range rebinding '.', range with := / = loop variables, if with declaration, block with parameters and context, yield with content, yielded block body, include with context, block yielded with a context by a Go helper (Runtime.YieldBlock), inner try (caught / failing in its catch)} around a failing action of any of 30 kinds incl. a Go runtime error in a user function and output produced by calls inside conditions / assignments (or none: success case), also as the only statement of a body without any text, with no catch / catch / catch with variable (whose body may fail too), executed with data or without any (a fifth of the cases), placed at top level, in a block invoked with content, in a range or in an include; probes after the statement print '.', variables, isset of every name declared inside, yield content and more text; catch handlers that yield the content of the block they stand in or read the error variable only through an included template; also: values that render themselves in pieces and fail after a piece that ends inside a character; a Go function that panics with a string full of '%' whose catch variable is printed; oracle = MiniJet reference interpreter with transactional try, plus a second execution into a destination that refuses, once, the Write handing over a finished try body (an error, and a prefix of the output); non-trivial = a failure below >=1 construct",
+		"try statements whose body nests 0-4 of {range rebinding '.', range with := / = loop variables, if with declaration, block with parameters and context, yield with content, yielded block body, include with context, block yielded with a context by a Go helper (Runtime.YieldBlock), inner try (caught / failing in its catch)} around a failing action of any of 30 kinds incl. a Go runtime error in a user function and output produced by calls inside conditions / assignments (or none: success case), also as the only statement of a body without any text, with no catch / catch / catch with variable (whose body may fail too), executed with data or without any (a fifth of the cases), placed at top level, in a block invoked with content, in a range or in an include; probes after the statement print '.', variables, isset of every name declared inside, yield content and more text; catch handlers that yield the content of the block they stand in or read the error variable only through an included template; also: values that render themselves in pieces and fail after a piece that ends inside a character; a Go function that panics with a string full of '%' whose catch variable is printed; round 10: a function that panics with a nil pointer in an error value; the refusing destination embeds a bytes.Buffer and overrides Write only; oracle = MiniJet reference interpreter with transactional try, plus a second execution into a destination that refuses, once, the Write handing over a finished try body (an error, and a prefix of the output); non-trivial = a failure below >=1 construct",
 		genC13, judgeC13)
 }
 
